@@ -50,7 +50,7 @@ func convBody(t *Tape) []byte {
 // BDAT, SMTP or LMTP) with static reply positions, and applies the forced or
 // drawn cut. It is the corpus generator of C07 and C08.
 func genConversation(t *Tape, sc *Scenario, allowAbandon bool) *convX {
-	sc.Srv = drawCfg(t, cfgOpts{})
+	sc.Srv = drawCfg(t, cfgOpts{allowTLS: true})
 	sc.Srv.MaxRcpt = 0
 	sc.Srv.MaxMsg = 0
 	if sc.Srv.LMTP && t.Bool() {
@@ -241,6 +241,13 @@ func checkC07(sc *Scenario, h *History) []Violation {
 	ch := h.Conns[0]
 	evs := dataEvents(h, 0)
 	replies, _ := parseReplies(ch.S2C.Buf) // everything the server wrote, delivered or not
+	if sc.Srv.TLS == tlsImplicit {
+		// below TLS the tap sees ciphertext: judge what the client could still read
+		replies, _ = parseReplies(ch.Recv)
+		if ch.HandshakeErr != "" {
+			return out
+		}
+	}
 	sent := len(ch.Sent)
 	wit := fmt.Sprintf("cut=%d kind=%d of %d", x.Cut, x.CutKind, x.Total)
 	for i, tx := range x.Txns {
